@@ -667,7 +667,7 @@ def to_matched_score(
     ms = []
     # sort according to onset (primary) and pitch (secondary)
     pitch_onset = [(sn["pitch"].item(), sn["onset_div"].item()) for sn, _ in note_pairs]
-    sort_order = np.lexsort(list(zip(*pitch_onset)))
+    sort_order = np.lexsort(list(zip(*pitch_onset))) if len(note_pairs) > 0 else []
     snote_ids = []
     for i in sort_order:
         sn, n = note_pairs[int(i)]
